@@ -7,18 +7,22 @@ import TorrentVerif.Model.ExceptEq
   * `torrentfile.utils.get_piece_length`         (`Impl.getPieceLength`, loop `Impl.gplLoop`)
   * the routing in `MetaFile.__init__`           (`Impl.recordedPieceLength`)
 
-  as they are in /repo after `fix: accept only true powers of two (>= 16 KiB) or exponents 14-25`.
+  as they are in /repo after `fix: accept only true powers of two (>= 16 KiB) or exponents 14-25`
+  and `fix: digit strings beyond the int conversion limit are rejected with the piece-length error`.
 
   Python values that can arrive as the `piece_length` keyword are rendered by `PLArg`:
   `None`, an `int` (`bool` is an `int`: `True` = 1, `False` = 0), a `str`, or any other object
   (only its truthiness matters: `normalize_piece_length` raises for every non-int non-str).
 
-  and `fix: digit strings beyond the int conversion limit are rejected with the piece-length error`.
-
   One CPython detail is modelled because the code runs into it: `int(s)` refuses strings of more
   than `sys.get_int_max_str_digits()` = 4300 characters with a `ValueError`, which the code turns
   into the piece-length error.  `intMaxStrDigits` is that constant.  So an over-long digit string
   is rejected even if it denotes a valid value (e.g. 4400 zeros followed by `16384`).
+  For an `int` argument there is no such limit: `fix: an integer piece length of more than 4300
+  digits is rejected with the piece-length error` made `PieceLengthValueError.__init__` survive
+  the `ValueError` that `str(huge_int)` raises, so every rejected integer of any size leaves with
+  the piece-length error, and a power of two of any size ≥ 2^14 is accepted (`normalizeInt` has
+  no size side condition).
 -/
 namespace TorrentVerif
 
